@@ -23,7 +23,14 @@ def fill_queries(rng, info, n, hot=()):
         hs = []
         for _ in range(k):
             r = rng.random()
-            if hot and rng.random() < 0.2:
+            prev_cs = [c for c in info['cstates'] if c['handle'] in hs or c['dh'] in hs]
+            if prev_cs and rng.random() < 0.3:
+                # a handle RELATED to one already in the list: the descriptor of a state named before, a sibling state,
+                # a state of a descriptor named before, the MDS of either (order matters for caches of 'resolved' handles)
+                c = rng.choice(prev_cs)
+                sib = [x['handle'] for x in info['cstates'] if x['dh'] == c['dh']]
+                hs.append(rng.choice([c['dh'], c['dh'], rng.choice(sib), c['handle'], c['mds']]))
+            elif hot and rng.random() < 0.2:
                 hs.append(rng.choice(hot))
             elif r < 0.3:
                 hs.append(rng.choice(dhs))
